@@ -36,7 +36,7 @@ PLANS['C01'] = {
     'rule': ('seeded random DOMs (shape, classes known/unknown, database-driven and unknown properties, all binary value types '
              'with boundary pools, abstract refs) x random root antichain x {lz4,none,zstd}; each is written by rbx_binary, read back, '
              'and compared with an expected dump derived from the abstract spec and the property statement; the same bytes are also decoded through a reader that is not a slice (a few bytes per call / a small BufReader / '
-             'two halves chained) and must give the same DOM; one case in four also compares the other public entry points (to_writer, Deserializer::new().deserialize, from_str, *_default) with the ones they abbreviate; one tree in four contains 2-4 instances of one class sharing a Content-object / Ref / SharedString column; one case in fifty is a SCALE tree '
+             'two halves chained) and must give the same DOM; one case in four also compares the other public entry points (to_writer, Deserializer::new().deserialize, from_str, *_default) with the ones they abbreviate; one tree in four contains 2-4 instances of one class sharing a Content-object / Ref / SharedString column; one in five of the others contains 2-5 instances of one class mixing both spellings of a property / the other spelling only / the canonical one only / neither; strings include CR-only, NBSP and U+2028 ones; unknown property names include padded and case-changed variants of reserved and known names; one case in fifty is a SCALE tree '
              '(63-2049, rarely 16384-17000, siblings or instances of one class; chains 300 deep; hundreds of distinct SharedStrings / classes / properties; values past 64 KiB, rarely 5 MiB); '
              'non-trivial = >=2 written instances and >=1 property; distinct = digest of the expected dump'),
     'floor': {'quick': 3000, 'thorough': 100000},
@@ -495,7 +495,7 @@ PLANS['C07'] = {
     'rule': ('each logical tree (generated, plus instances carrying several spellings of one logical property with different values) is built 6 ways (nested builders, chosen referents, shuffled '
              'property insertion order, reversed order + capacity, incremental inserts, flat insert + transfer_within) and serialized as binary x {lz4,none,zstd} and XML: all outputs byte-identical; '
              'the whole workload runs in P separate processes (other hash seeds; every other one runs the cases in the opposite order, so state kept between calls differs too) and their (case, format) -> output hashes are joined offline and must agree; '
-             'one case in eight uses a class for which the database records no defaults (the writer must invent the gap value); fault injection: after the first output of a case, saves are made to FAIL (sink refusing after k bytes, a tree the writer rejects) and the next save of the same tree must give the same bytes; '
+             'one case in eight uses a class for which the database records no defaults (the writer must invent the gap value); one in twelve gives an instance an unknown THIRD spelling between two database names that differ only in letter case (Humanoid MaxHealth / maxHealth ...; found by walking the database); fault injection: after the first output of a case, saves are made to FAIL (sink refusing after k bytes, a tree the writer rejects) and the next save of the same tree must give the same bytes; '
              'fixed point: b2 = save(load(b1)), b3 = save(load(b2)) must be byte-identical; non-trivial = tree with >=3 nodes or >=2 properties; distinct = digest of the tree shape'),
     'floor': {'quick': 1500, 'thorough': 30000},
     'assumptions': ['process-level hash-seed diversity comes from ahash runtime keys: P processes sample P seeds, not all'],
